@@ -50,6 +50,12 @@ pub enum Form {
     ResultPanicLvlFn,
     /// leveled macro with Result-aware completion: `#[emit::info_span(ok_lvl: ..)]`
     InfoResultFn,
+    /// call-site filter: `when:` overrides the runtime's filter
+    WhenFn,
+    /// leveled attribute macro: `#[emit::warn_span]`
+    WarnFn,
+    /// leveled `new_info_span!`
+    NewInfoSpanSync,
     GuardFn,
     Manual,
 }
@@ -556,6 +562,16 @@ fn span_info_result_fn(w: &Arc<World>, st: &mut Strand, sid: u32, enabled: bool,
     Ok(())
 }
 
+#[emit::span(rt: &w.rt, when: emit::filter::from_fn(move |_| when_ok), "span {sid}", sid)]
+fn span_when_fn(w: &Arc<World>, st: &mut Strand, sid: u32, enabled: bool, body: &Arc<Vec<S>>, exit: Exit, when_ok: bool) {
+    body_sync(w, st, sid, enabled, body, exit)
+}
+
+#[emit::warn_span(rt: &w.rt, "span {sid}", sid)]
+fn span_warn_fn(w: &Arc<World>, st: &mut Strand, sid: u32, enabled: bool, body: &Arc<Vec<S>>, exit: Exit) {
+    body_sync(w, st, sid, enabled, body, exit)
+}
+
 #[emit::span(rt: &w.rt, panic_lvl: "warn", "span {sid}", sid)]
 fn span_panic_lvl_fn(w: &Arc<World>, st: &mut Strand, sid: u32, enabled: bool, body: &Arc<Vec<S>>, exit: Exit) {
     body_sync(w, st, sid, enabled, body, exit)
@@ -782,6 +798,24 @@ fn run_span_sync(w: &Arc<World>, st: &mut Strand, n: &S) {
             lg(&w.log).spans[ix].expect_lvl = Some(Some(lvl));
         }
         Form::PanicLvlFn => span_panic_lvl_fn(w, st, sid, enabled, body, exit),
+        Form::WhenFn => {
+            // the runtime filter would say the opposite: the call-site filter must win
+            NEXT_SAMPLE.with(|c| c.set(!enabled));
+            span_when_fn(w, st, sid, enabled, body, exit, enabled)
+        }
+        Form::WarnFn => {
+            lg(&w.log).spans[ix].expect_lvl = Some(Some("warn"));
+            span_warn_fn(w, st, sid, enabled, body, exit)
+        }
+        Form::NewInfoSpanSync => {
+            lg(&w.log).spans[ix].expect_lvl = Some(Some("info"));
+            let (mut guard, frame) = emit::new_info_span!(rt: &w.rt, "span {sid}", sid);
+            let st_inner: &mut Strand = &mut *st;
+            frame.call(move || {
+                guard.start();
+                body_sync(w, st_inner, sid, enabled, body, exit);
+            });
+        }
         Form::ResultPanicLvlFn => {
             let r = span_result_panic_lvl_fn(w, st, sid, enabled, body, exit);
             let lvl = if r.is_ok() { "info" } else { "warn" };
@@ -1237,13 +1271,13 @@ pub fn gen_nodes(ch: &mut Choices, cfg: &GenCfg, depth: u32, budget: &mut u32, n
                 *next += 1;
                 let sid = *next;
                 let form = if c05 && is_async {
-                    *ch.pick(&[Form::Manual, Form::Manual, Form::Manual, Form::SyncFn, Form::ResultFn, Form::PanicLvlFn, Form::ResultPanicLvlFn, Form::InfoResultFn, Form::GuardFn, Form::NewSpanSync, Form::AsyncFn, Form::AsyncFn, Form::NewSpanAsync])
+                    *ch.pick(&[Form::Manual, Form::Manual, Form::Manual, Form::SyncFn, Form::ResultFn, Form::PanicLvlFn, Form::ResultPanicLvlFn, Form::InfoResultFn, Form::WhenFn, Form::WarnFn, Form::NewInfoSpanSync, Form::GuardFn, Form::NewSpanSync, Form::AsyncFn, Form::AsyncFn, Form::NewSpanAsync])
                 } else if c05 {
-                    *ch.pick(&[Form::Manual, Form::Manual, Form::Manual, Form::SyncFn, Form::ResultFn, Form::PanicLvlFn, Form::ResultPanicLvlFn, Form::InfoResultFn, Form::GuardFn, Form::NewSpanSync])
+                    *ch.pick(&[Form::Manual, Form::Manual, Form::Manual, Form::SyncFn, Form::ResultFn, Form::PanicLvlFn, Form::ResultPanicLvlFn, Form::InfoResultFn, Form::WhenFn, Form::WarnFn, Form::NewInfoSpanSync, Form::GuardFn, Form::NewSpanSync])
                 } else if is_async {
-                    *ch.pick(&[Form::AsyncFn, Form::AsyncFn, Form::NewSpanAsync, Form::SyncFn, Form::NewSpanSync, Form::ResultFn])
+                    *ch.pick(&[Form::AsyncFn, Form::AsyncFn, Form::NewSpanAsync, Form::SyncFn, Form::NewSpanSync, Form::ResultFn, if TP { Form::SyncFn } else { Form::WhenFn }, Form::WarnFn])
                 } else {
-                    *ch.pick(&[Form::SyncFn, Form::SyncFn, Form::NewSpanSync, Form::ResultFn, Form::GuardFn])
+                    *ch.pick(&[Form::SyncFn, Form::SyncFn, Form::NewSpanSync, Form::ResultFn, Form::GuardFn, if TP { Form::SyncFn } else { Form::WhenFn }, Form::NewInfoSpanSync])
                 };
                 let exit = if c05 {
                     *ch.pick(&[Exit::Fall, Exit::Fall, Exit::Err, Exit::Panic])
